@@ -14,7 +14,9 @@ From Refinery Require Export Monitor.CollCase_coll.
    12  goroutines started by the collector were still running after Stop
    13  Stop forwarded spans of a trace whose remembered decision is drop, or forwarded a span twice
    14  a trace that left a buffer during Stop has no decision on record
-   15  Stop forwarded spans of a trace that has no decision on record *)
+   15  Stop forwarded spans of a trace that has no decision on record
+   16  a trace decided keep (or decided at all, under dry run) before Stop returned has an accepted span that
+       never reached the transmission (e.g. decided traces still in the outgoing queue were abandoned) *)
 Definition stop_item (k : CollCase_coll.case) : option item :=
   match rev (k_items k) with
   | it :: _ => match i_op it with IStop _ => Some it | _ => None end
@@ -34,7 +36,13 @@ Definition check_coll (k : CollCase_coll.case) : codes :=
       cond (match i_op it with
             | IStop lefts => forallb (fun t => mem_N t (i_forgot it) || negb (N.eqb (nthN (o_dec it) t 0%N) 0)) (concat lefts)
             | _ => true end) 14 ++
-      cond (forallb (fun e => mem_N (ev_tid e) (i_forgot it) || negb (N.eqb (nthN (o_dec it) (ev_tid e) 0%N) 0)) (o_fwd it)) 15
+      cond (forallb (fun e => mem_N (ev_tid e) (i_forgot it) || negb (N.eqb (nthN (o_dec it) (ev_tid e) 0%N) 0)) (o_fwd it)) 15 ++
+      cond (forallb (fun t =>
+              let d := final_dec (k_items k) t in
+              was_forgot (k_items k) t || negb (N.eqb d 1 || (k_dry k && negb (N.eqb d 0))) ||
+              forallb (fun sid => mem_N sid (forwarded_sids (k_items k) t) || mem_N sid (buffered_sids (final_bufs (k_items k)) t))
+                      (accepted_sids (k_items k) t))
+            (seqN (k_ntr k))) 16
   end.
 
 (* ---------- the shutdown sequence with real transmissions ---------- *)
